@@ -577,7 +577,15 @@ func (e *Engine) runPath(sess *Session, h *ssa.Function, prefix []int32, wantSam
 					res.Inconclusive = append(res.Inconclusive, "panic path without model: "+r.msg)
 				}
 			default:
-				res.Aborted = &pathAbort{abUnsupported, fmt.Sprintf("engine error: %v\n%s", r, trimStack(debug.Stack()))}
+				var cs []string
+				for i := len(ex.callStack) - 1; i >= 0 && i >= len(ex.callStack)-6; i-- {
+					cs = append(cs, ex.callStack[i].String())
+				}
+				msg := fmt.Sprintf("engine error: %v in %s", r, strings.Join(cs, " < "))
+				if e.verbose {
+					msg += "\n" + trimStack(debug.Stack())
+				}
+				res.Aborted = &pathAbort{abUnsupported, msg}
 			}
 		}
 		if res.Aborted == nil && res.Panicked == "" {
